@@ -409,3 +409,36 @@ Proof.
   - intros H. eapply In_unique; eauto.
   - intros ->. exact Hcl.
 Qed.
+
+(* ---------- C13_label_every: no object file of the output is left without the label ---------- *)
+Lemma OUT_TABLE_eq : OUT_TABLE = all_out_names ++ TXT_NAMES.
+Proof. reflexivity. Qed.
+
+Lemma labelled_table c L' :
+  forallb (fun n0 => Bool.eqb (labelled (relabel (String c L') n0)) (labelled n0)) OUT_TABLE = true.
+Proof. vm_compute. reflexivity. Qed.
+Lemma labelled_relabel L n0 : In n0 OUT_TABLE -> labelled (relabel L n0) = labelled n0.
+Proof.
+  intros H. destruct L as [|c L']; [reflexivity|].
+  pose proof (labelled_table c L') as T. rewrite forallb_forall in T. specialize (T _ H). now apply Bool.eqb_prop in T.
+Qed.
+
+Lemma label_names_thm o ci r : convert o ci = COk r ->
+  Label_Names_Spec (ci_label ci) (names (co_npy r) ++ names (co_txt r)).
+Proof.
+  intros Hc n Hin _. destruct (label_thm _ _ _ Hc) as (H1 & _ & H3 & H4). rewrite OUT_TABLE_eq.
+  unfold names in Hin. apply in_app_or in Hin as [Hin|Hin].
+  - apply in_map_iff in Hin as ([n' a] & <- & Hin). cbn [fst]. destruct (H1 _ _ Hin) as (n0 & a0 & Hin0 & ->).
+    exists n0. split; [|reflexivity]. apply in_or_app. left. eapply H4; exact Hin0.
+  - rewrite H3, map_map in Hin. cbn [fst] in Hin. apply in_map_iff in Hin as ([n0 t] & <- & Hin). cbn [fst].
+    exists n0. split; [|reflexivity]. eapply txt_names; exact Hin.
+Qed.
+
+Lemma label_every_thm o ci r : convert o ci = COk r -> ci_label ci <> "" ->
+  forall n, In n (names (co_npy r) ++ names (co_txt r)) -> labelled n = true ->
+  exists n0, In n0 OUT_TABLE /\ labelled n0 = true /\ Label_Spec (ci_label ci) n0 n.
+Proof.
+  intros Hc HL n Hin Hlab. destruct (label_names_thm _ _ _ Hc n Hin Hlab) as (n0 & H0 & ->).
+  rewrite (labelled_relabel _ _ H0) in Hlab. exists n0. repeat split; auto.
+  rewrite OUT_TABLE_eq in H0. now apply (proj2 (relabel_spec (ci_label ci) n0 H0)).
+Qed.
